@@ -48,24 +48,25 @@ static const unsigned TSLEN[3] = { TSL0, TSL1, TSL0 };
 struct MapShape {
   // offsets of the words the writer is allowed to change
   unsigned offSavedGame, offUnknown, consumed, total, offTiles, offAfterTerrain;
+  unsigned offTs0Len, offMapCnt, offTerCnt, offGrpCnt, offG0W, offG0H, offG0NameLen;   // structural fields (0 when absent)
 };
 #define MAP_MAXLEN (20 + NTILES * 4 + 16 + NTS * (4 + 8 + 4) + 10 + 4 + NMAP * 8 + 4 + NTER * 264 + 8 + 8 + NGRP * (8 + GW * GH * 4 + 4 + GNL) + TRAIL)
 // fills buf (MAP_MAXLEN bytes) with a well-formed map of the shape; returns the layout
 static MapShape build_map(uint8_t* buf, bool withTail = true) {
-  MapShape s; unsigned p = 0;
+  MapShape s; memset(&s, 0, sizeof s); unsigned p = 0;
   vf_havoc(buf, MAP_MAXLEN);
   uint32_t ver = vf_ld32(buf); vf_assume(ver >= 0x1010);
   s.offSavedGame = 4; vf_st32(buf + 8, LG); vf_st32(buf + 12, H); vf_st32(buf + 16, NTS);
   p = 20; s.offTiles = p; p += NTILES * 4; p += 16;
-  for (unsigned i = 0; i < NTS; i++) { vf_st32(buf + p, TSLEN[i]); p += 4 + TSLEN[i]; if (TSLEN[i]) p += 4; }
+  for (unsigned i = 0; i < NTS; i++) { if (i == 0) s.offTs0Len = p; vf_st32(buf + p, TSLEN[i]); p += 4 + TSLEN[i]; if (TSLEN[i]) p += 4; }
   memcpy(buf + p, "TILE SET\x1a", 10); p += 10;
-  vf_st32(buf + p, NMAP); p += 4 + NMAP * 8;
-  vf_st32(buf + p, NTER); p += 4 + NTER * 264;
+  s.offMapCnt = p; vf_st32(buf + p, NMAP); p += 4 + NMAP * 8;
+  s.offTerCnt = p; vf_st32(buf + p, NTER); p += 4 + NTER * 264;
   s.offAfterTerrain = p;
   vf_st32(buf + p, ver); vf_st32(buf + p + 4, ver); p += 8;
   if (withTail) {
-    vf_st32(buf + p, NGRP); s.offUnknown = p + 4; p += 8;
-    for (unsigned g = 0; g < NGRP; g++) { vf_st32(buf + p, GW); vf_st32(buf + p + 4, GH); p += 8 + GW * GH * 4; vf_st32(buf + p, GNL); p += 4 + GNL; }
+    s.offGrpCnt = p; vf_st32(buf + p, NGRP); s.offUnknown = p + 4; p += 8;
+    for (unsigned g = 0; g < NGRP; g++) { if (g == 0) { s.offG0W = p; s.offG0H = p + 4; } vf_st32(buf + p, GW); vf_st32(buf + p + 4, GH); p += 8 + GW * GH * 4; if (g == 0) s.offG0NameLen = p; vf_st32(buf + p, GNL); p += 4 + GNL; }
   }
   s.consumed = p; s.total = p + TRAIL;
   return s;
